@@ -265,6 +265,14 @@ func checkReduction(c C05Case, x tensor.Tensor, n prog.Node, k int) (*Failure, b
 	if err != nil {
 		return failf("%s(%d) rejected on shape %v: %v", n.Op, dim, l.Shape, err), false
 	}
+	if c.P.UseResult {
+		// the result is used further (UnSqueeze back to the operand's rank among others) before
+		// anything is read
+		lib.Warm(y)
+		if k, err := y.UnSqueeze(dim); err == nil {
+			lib.Warm(k)
+		}
+	}
 	ys, yv, err := lib.Read(y)
 	if err != nil {
 		return failf("%s result unreadable: %v", n.Op, err), false
